@@ -57,7 +57,7 @@ def tasks(tier):
     ts += [("assign", W, k, cat[k][0]) for k in range(len(cat))]
     ts += [("row", w, s, depth) for (w, s) in [(0, False), (1, False), (3, False), (3, True)] for depth in (1, 3)]
     chunk = 24
-    return [("chunk", tuple(ts[i:i + chunk])) for i in range(0, len(ts), chunk)] + [("conflict",)]
+    return [("chunk", tuple(ts[i:i + chunk])) for i in range(0, len(ts), chunk)] + [("conflict",), ("castable-roundtrip",)]
 
 
 def canaries(tier):
@@ -198,6 +198,102 @@ def check_conflict():
     return {"task": "conflict", "paths": 0, "solver_s": 0.0, "obligations": obs}
 
 
+def check_castable_roundtrip():
+    """Values of shape-castable objects round-trip through const / from_bits in a testbench: ctx.set(sig, obj) followed by
+    ctx.get(sig) returns obj, for EVERY value of each listed shape-castable (exhaustive over the finite shape: complete per
+    shape), on the real Simulator: signed and unsigned shaped enumerations, flags, a signed custom ShapeCastable of widths
+    1..5, struct and array layouts with signed fields."""
+    import enum as py_enum
+    from amaranth.hdl import Signal, Module, Shape, ShapeCastable, Const, signed, unsigned
+    from amaranth.lib import enum as aenum, data
+    from amaranth.sim import Simulator
+
+    class SEnum(aenum.Enum, shape=signed(3)):
+        M4, M1, Z, P3 = -4, -1, 0, 3
+
+    class UEnum(aenum.Enum, shape=unsigned(2)):
+        A, B, C = 0, 1, 3
+
+    class Fl(aenum.Flag, shape=3):
+        X, Y, Z = 1, 2, 4
+
+    class Tagged(ShapeCastable):
+        """a signed quantity carried as ('q', integer): const/from_bits are mutually inverse on the shape's values"""
+        def __init__(self, width):
+            self.width = width
+
+        def as_shape(self):
+            return signed(self.width)
+
+        def const(self, init):
+            return Const(0 if init is None else init[1], signed(self.width))
+
+        def from_bits(self, raw):
+            return ("q", raw)
+
+        def __call__(self, value):
+            return TaggedValue(self, value)
+
+        def format(self, value, spec):
+            from amaranth.hdl import Format
+            return Format("{}", value.as_value())
+
+    from amaranth.hdl import ValueCastable
+
+    class TaggedValue(ValueCastable):
+        def __init__(self, shape, target):
+            self._shape, self._target = shape, target
+
+        def shape(self):
+            return self._shape
+
+        def as_value(self):
+            return self._target
+    St = data.StructLayout({"a": signed(2), "b": unsigned(1), "e": SEnum})
+    Ar = data.ArrayLayout(signed(2), 2)
+    cases = []
+    cases.append(("signed shaped enum", SEnum, list(SEnum)))
+    cases.append(("unsigned shaped enum", UEnum, list(UEnum)))
+    cases.append(("flag", Fl, [Fl(v) for v in range(8)]))
+    for w in range(1, 6):
+        cases.append((f"signed custom shape-castable, width {w}", Tagged(w), [("q", v) for v in range(-(1 << (w - 1)), 1 << (w - 1))]))
+    cases.append(("struct layout", St, [{"a": a, "b": b, "e": e} for a in range(-2, 2) for b in (0, 1) for e in SEnum]))
+    cases.append(("array layout", Ar, [[a, b] for a in range(-2, 2) for b in range(-2, 2)]))
+    obs = []
+    n = 0
+    for label, shape, values in cases:
+        sig = Signal(shape, name="s")
+        m = Module()
+        dummy = Signal()
+        m.d.comb += dummy.eq(0)
+        bad = []
+
+        async def tb(ctx, sig=sig, values=values, shape=shape, bad=bad):
+            for v in values:
+                ctx.set(sig, v)
+                got = ctx.get(sig)
+                if isinstance(shape, data.Layout):
+                    want = shape.const(v)
+                    ok = got.as_bits() == want.as_bits() if hasattr(got, "as_bits") else False
+                else:
+                    ok = got == v
+                if not ok and not bad:
+                    bad.append({"shape-castable": label, "written": repr(v), "read back": repr(got),
+                                "how": "Simulator testbench: ctx.set(Signal(shape), value); ctx.get(signal)"})
+        sim = Simulator(m)
+        sim.add_testbench(tb)
+        try:
+            sim.run()
+        except Exception as e:
+            if not bad:
+                bad.append({"shape-castable": label, "raised": repr(e)[:300],
+                            "how": "Simulator testbench: ctx.set(Signal(shape), value); ctx.get(signal) for every value of the shape"})
+        n += len(values)
+        obs.append({"name": f"castable-roundtrip::{label}", "kind": "post", "status": "proved" if not bad else "refuted", "backend": "closed",
+                    "time_s": 0.0, **({} if not bad else {"failing_input": bad[0]})})
+    return {"task": "castable-roundtrip", "paths": n, "solver_s": 0.0, "obligations": obs}
+
+
 def run_one(t):
     if t[0] == "value":
         return check_value(t[1])
@@ -215,6 +311,8 @@ def run_task(task):
         return runner.merge_results(f"chunk[{T.tid(task[1][0])}..]", parts)
     if kind == "conflict":
         return check_conflict()
+    if kind == "castable-roundtrip":
+        return check_castable_roundtrip()
     if kind == "canary-value":
         return check_value(("binop", "-", (2, True), (3, False)), wrong=True)
     if kind == "canary-assign":
